@@ -32,8 +32,15 @@ RICH = [
     ("soft_then_hard", "Well... first line\nsecond line\\\nthird line  \nfourth \"quoted\" line\nfifth\n\n- item first\n  item second\\\n  item third\n"),
     ("escaped_numerals", "see section\n1\\. for the details and 2\\) too\n\n3\\. starts a paragraph\n\n- 4\\. in an item\n"),
     ("backslash_break", "A path ends C:\\\\\\\nnext line after a hard break\n\nfive of them \\\\\\\\\\\nthen text\n\n- item ends x\\\\\\\n  continued\n\n> quote \\\\\\\n> more\n\ntwo only \\\\\nno break here\n"),
+    ("footnote_nextline", "text[^1] and more[^2]\n\n[^1]:\n    Starts on next line\n\n[^2]: ordinary note\n"),
     ("table_then_escape", "| A | B |\n|---|---|\n| x | y |\n\n1\\. not a list\n\n- 2\\. text\n"),
 ]
+
+
+def d56_trigger(src: str) -> bool:
+    """a line that is only a footnote label and a colon, directly followed by an indented line (finding D56)"""
+    import re
+    return bool(re.search(r"(?m)^\[\^[^\]\n]+\]:[ \t]*\n[ \t]+\S", src))
 
 
 def option_cube(tier: str):
